@@ -1737,3 +1737,49 @@ def show(term, depth=0, maxdepth=12):
     if k == "comp":
         return f"comp#{term[4]}[{s(term[2])} for {', '.join(g[0] + ' in ' + s(g[1]) for g in term[3])}]"
     return f"<{k}:{','.join(str(x) for x in term[1:])}>"
+
+
+def dict_read_base(t, key):
+    """The mapping a read of constant `key` really looks at: copies (dict(x), x.copy(), {**x}) and writes of OTHER constant keys
+    (single item assignments, or a loop writing the elements of a literal tuple of names) are looked through.
+    -> the base term, or None when a write of `key` itself (or of a key that cannot be told apart) is in the way."""
+    for _ in range(20):
+        k = t[0]
+        if k == "call" and t[1] == ("global", "dict") and len(t[2]) == 1 and not [kv for kv in t[3] if not str(kv[0]).startswith("#")]:
+            t = t[2][0]
+        elif k == "call" and t[1][0] == "attr" and t[1][2] == "copy" and not t[2]:
+            t = t[1][1]
+        elif k == "setitem":
+            ks = _const_keys(t[2])
+            if ks is None or key in ks:
+                return None
+            t = t[1]
+        elif k == "loopout":
+            written = set()
+            for x in walk(t[4]):
+                if x[0] == "setitem":
+                    ks = _const_keys(x[2])
+                    if ks is None:
+                        return None
+                    written |= ks
+                elif x[0] == "call" and x[1][0] == "attr" and x[1][2] in ("update", "pop", "setdefault", "clear", "popitem"):
+                    return None
+            if key in written:
+                return None
+            t = t[3]
+        elif k == "phi":
+            a, b = dict_read_base(t[2], key), dict_read_base(t[3], key)
+            if a is None or a != b:
+                return None
+            return a
+        else:
+            return t
+    return None
+
+
+def _const_keys(kt):
+    if kt[0] == "const":
+        return {kt[1]}
+    if kt[0] == "elem" and kt[1][0] in ("tuple", "list") and all(e[0] == "const" for e in kt[1][1]):
+        return {e[1] for e in kt[1][1]}
+    return None
